@@ -217,8 +217,11 @@ impl<'a> MaybeSlice<'a> {
     pub fn to_vec(&self) -> (r: Vec<u8>) ensures r@ == self@ { unimplemented!() }
     #[verifier::external_body]
     pub fn into_vec(self) -> (r: Vec<u8>) ensures r@ == self@ { unimplemented!() }
+}
+impl<'a> std::ops::Deref for MaybeSlice<'a> {
+    type Target = [u8];
     #[verifier::external_body]
-    pub fn deref(&self) -> (r: &[u8]) ensures r@ == self@ { unimplemented!() }
+    fn deref(&self) -> (r: &[u8]) ensures r@ == self@ { unimplemented!() }
 }
 
 impl StdFile {
